@@ -21,6 +21,11 @@ Ops (see `LP.TM.Op`):
 * `set_start caller=<a> t=<ns> w=<0|1>` → `ok|err start=<ns> ## exp=…`;  `set_limit caller=<a> limit=<n> w=<0|1>` → `ok|err limit=<n> ## exp=…`
 * `purge caller=<a> w=<0|1>`, `burn_remaining caller=<a> w=<0|1>` → `ok|err left=<n> ## exp=…`
 * `noise what=<free text> … w=<0|1>` → `ok|err start=<ns> limit=<n> left=<n> tnum=<n>`
+* `shuffle caller=<a> w=<0|1> perm=<ids in position order afterwards|->` → `ok|err left=<n>` (`LP.TM.OpX.shuffle`: `perm` must be a
+  permutation of the model's mintable ids)
+* `tgt_xfer caller=<a> id=<n> to=<a> w=<0|1>`, `tgt_burn caller=<a> id=<n> w=<0|1>` (holder ops on the minter's OWN collection)
+      → `ok|err town=<a|0> tnum=<n>`
+* `govern maxlim=<n> price=<n> denom=<0|1> w=<0|1>` (factory sudo UpdateParams) → `ok|err maxlim=<n> price=<n>`
 * `obs users=<a,…> maxid=<n>` → full dump ` ## ids=<mintable ids>`
 
 `w` = the implementation's outcome (checked witness, see `Model/TokenMerge.lean`); the part after ` ## ` is outside the
@@ -175,6 +180,24 @@ def c17Step (st : Option State) (line : String) : Option State × String :=
         let w ← natKv ws "w"
         let s' := step' s (.noise (w != 0))
         pure (s', s!"{okS (w != 0)} start={s'.start} limit={s'.perAddressLimit} left={s'.mintable.length} tnum={s'.tgtNum}")
+      | some "shuffle" => do
+        let w ← natKv ws "w"
+        let perm := (natListKv ws "perm").getD s.mintable
+        match stepX s (.shuffle (w != 0) perm) with
+        | .ok s' => pure (s', s!"ok left={s'.mintable.length}")
+        | .error _ => pure (s, s!"err left={s.mintable.length}")
+      | some "tgt_xfer" => do
+        let a ← natKv ws "caller"; let id ← natKv ws "id"; let to ← natKv ws "to"; let w ← natKv ws "w"
+        let s' := stepX' s (.tgtTransfer a id to (w != 0))
+        pure (s', s!"{okS (stepX s (.tgtTransfer a id to (w != 0))).isOk} town={oaddr (s'.tgtOwner id)} tnum={s'.tgtNum}")
+      | some "tgt_burn" => do
+        let a ← natKv ws "caller"; let id ← natKv ws "id"; let w ← natKv ws "w"
+        let s' := stepX' s (.tgtBurn a id (w != 0))
+        pure (s', s!"{okS (stepX s (.tgtBurn a id (w != 0))).isOk} town={oaddr (s'.tgtOwner id)} tnum={s'.tgtNum}")
+      | some "govern" => do
+        let m ← natKv ws "maxlim"; let pr ← natKv ws "price"; let w ← natKv ws "w"
+        let s' := stepX' s (.govern m pr (w != 0))
+        pure (s', s!"{okS (w != 0)} maxlim={s'.maxPerAddressLimit} price={s'.airdropPrice}")
       | some "obs" => do
         let us ← natListKv ws "users"; let mx ← natKv ws "maxid"
         pure (s, obsLine s us mx)
